@@ -310,8 +310,20 @@ def gates():
     msrc = open(os.path.join(REPO, "src/msg/message.rs")).read()
     rows = re.findall(r'"msg(\d+)": Msg(\d+)\(msg(\d+)\) = (\d+)', msrc)
     cargo = open(os.path.join(REPO, "Cargo.toml")).read()
-    am = re.search(r"all_msgs\s*=\s*\[(.*?)\]", cargo, re.S)
-    allm = sorted(int(x) for x in re.findall(r'"msg(\d+)"', am.group(1)))
+    # all_msgs, resolved through group features (all_msgs = ["msm", ...], msm = ["msm_gps", ...], ...): the message features it switches on
+    fdecl = {m.group(1): re.findall(r'"([^"]+)"', m.group(2)) for m in re.finditer(r"^([A-Za-z0-9_\-]+)\s*=\s*\[(.*?)\]", cargo, re.S | re.M)}
+    seen, todo, allm = set(), ["all_msgs"], set()
+    while todo:
+        f = todo.pop()
+        if f in seen:
+            continue
+        seen.add(f)
+        mm = re.fullmatch(r"msg(\d+)", f)
+        if mm:
+            allm.add(int(mm.group(1)))
+            continue        # what a message feature itself enables is reported under "chained"
+        todo += [x for x in fdecl.get(f, []) if not x.startswith("dep:") and "/" not in x]
+    allm = sorted(allm)
     feats = sorted(int(x) for x in re.findall(r"^msg(\d+)\s*=\s*\[\s*\]", cargo, re.M))
     # message features that enable something else (msgNNNN = [...non-empty...]) are not "selectable on their own"
     chained = sorted(int(x) for x in re.findall(r"^msg(\d+)\s*=\s*\[\s*[^\]\s][^\]]*\]", cargo, re.M))
